@@ -26,6 +26,19 @@ def flip1(rng, b):
     return b ^ (1 << rng.randrange(8))
 
 # ------------------------------------------------------------------------------------ IDL cases
+def idl_packet_dl(channel, ft, ial, spa, ri, ci, dlbyte, rest):
+    """format A packet with a DL byte chosen freely (also larger than the room left) and a correct check sum;
+    `rest` are the idl_capacity() bytes after the DL byte"""
+    assert ft & 8 and len(rest) == idl_capacity(ft, len(spa))
+    head = [HAM8[channel], HAM8[15], HAM8[ft], HAM8[ial]] + [HAM8[n] for n in spa]
+    if ft & 2:
+        head.append(ri)
+    region = ([ci] if ft & 4 else []) + [dlbyte] + list(rest)
+    w = crc_bitwise(region) ^ unshift16(0 if ft & 4 else ci * 257)
+    pkt = head + region + [w & 0xFF, w >> 8]
+    assert len(pkt) == 42
+    return pkt
+
 def gen_idl_case(rng, kind):
     """kind: clean | loss | corrupt | hamming | repeat | uninit | single"""
     channel = rng.randrange(16)
@@ -77,7 +90,7 @@ def gen_idl_case(rng, kind):
         fault = None
         if 2 < k < n - 3 and rng.random() < 0.25:
             fault = {"loss": "drop", "corrupt": "crc", "hamming": "ham2", "single": "ham1",
-                     "repeat": rng.choice(["crc-repeat", "dup"])}.get(kind)
+                     "repeat": rng.choice(["crc-repeat", "crc-repeat-late", "dup"])}.get(kind)
         depflag = ial & 8
         def deliver_exp(tag):
             nonlocal exp_ci, pending_lost, after_recover
@@ -125,6 +138,29 @@ def gen_idl_case(rng, kind):
                 rep2 = idl_packet(channel, ft, ial, spa, 0x80 | r, ci, data, dummy)
                 ops.append("idl feed " + hx(rep2))
                 ops.append("idl expect dup-after-recover 1")
+        elif fault == "crc-repeat-late":
+            # damaged first transmission announcing a repeat; repeat 1 is lost too, a later repeat arrives: the
+            # receiver cannot know what it missed - discarded, and the loss shows at the next delivery
+            bad = list(pkt)
+            bad[rng.randrange(5 + spa_len, 42)] ^= 1 << rng.randrange(8)
+            if crc_ok(bad, spa_len, ft):
+                bad[41] ^= 0x10
+            ops.append("idl feed " + hx(bad))
+            ops.append("idl expect crc-repeat 0")
+            r = rng.choice([9, 9, 2, 3, 5, 15])
+            rep = idl_packet(channel, ft, ial, spa, 0x80 | r, ci, data, dummy)
+            ops.append("idl feed " + hx(rep))
+            ops.append("idl expect late-repeat 1")
+            pending_lost, exp_ci = True, None
+        elif fault is None and (ft & 8) and rng.random() < 0.12:
+            # a DL byte that promises more than the packet holds (or has its two reserved MSBs set), check sum
+            # correct: at most the bytes of the packet are delivered, nothing is read behind it
+            rest = [rng.choice([0x11, 0x5A, 0xC3, 0x7E, rng.randrange(1, 255)]) for _ in range(cap)]
+            dlbyte = rng.choice([cap + 1, 40, 63, 0x7F, 0xFF, 0x40 | rng.randrange(cap + 1), 0x80 | rng.randrange(cap + 1)])
+            data = rest[:min(dlbyte & 0x3F, cap)]
+            pkt = idl_packet_dl(channel, ft, ial, spa, ri, ci, dlbyte, rest)
+            ops.append("idl feed " + hx(pkt))
+            deliver_exp("dl-big" if not fill else "uninit")
         else:
             if fault == "ham1":
                 pkt = list(pkt)
@@ -379,16 +415,18 @@ def gen_pfc_case(rng, kind):
 class C15(verif.Spec):
     prop = "C15"
     comp = "idlpfc"
-    lean_modules = ["ZvbiModel.Props.C15"]
+    lean_modules = ["ZvbiModel.Props.C15", "ZvbiModel.Props.C15Sender"]
     harness = "idlpfc_harness"
     harness_link_lib = True
-    partial_note = ("IDL and PFC: full for the modelled behaviour. IDL: idl_delivers_sent_repeats covers every state incl. an "
-                    "awaited repeat; on the unrepaired source it describes the receiver that keeps awaiting the repeat "
-                    "(finding C15-R1, witness proved), idl_delivers_sent_repeats_intended applies once the source resets dx->ri. "
-                    "PFC: pfc_sender_delivers is end to end for the executable sender (pfc_sender_admissible proved). "
-                    "Foreign page headers of our magazine *between* our pages are covered by single-step theorems; headers of "
-                    "other magazines anywhere by pfc_foreign_magazine_header_harmless. Finding F42 (last rows of a page lost): "
-                    "full statement false on the current tree, witness pfc_tail_loss_counterexample.")
+    partial_note = ("IDL and PFC: full for the modelled behaviour, end to end for the executable senders. IDL: "
+                    "idl_sender_packets_valid (Spec.mkPacket yields Valid packets for all inputs), idl_roundtrip / "
+                    "idl_roundtrip_lossy (consecutive continuity indices modulo 256, repeats, damage, drops, foreign packets; "
+                    "a loss that shows only as a continuity gap of an exact multiple of 256 messages is not detectable - stated "
+                    "in the spec `want`). PFC: pfc_roundtrip (transmit = encode + paginate + headers), "
+                    "pfc_delivers_blocks_foreign_traffic / pfc_roundtrip_foreign_traffic (closing headers and foreign rows "
+                    "between our pages, transparent packets anywhere). Finding F42 (last rows of a page lost): the full "
+                    "statement is false on the current tree; pfc_tail_loss_reads_spliced_stream says what happens instead, "
+                    "witnesses pfc_tail_loss_counterexample and pfc_tail_loss_spliced_counterexample.")
     assumptions = ["the callbacks return TRUE (as in the harness)",
                    "packets are 42 bytes; dx->block.pgno is a page number 0x100..0x8FF for the page level theorems",
                    "dupecount (uint8_t) is a Nat: it is incremented at most 36 times per packet",
